@@ -1,16 +1,43 @@
 (** The history-file interpreter: one input line (a list of tokens) -> output lines.
     The same function is extracted to OCaml (ocaml/modelrun) and can be evaluated inside Coq. *)
 From Coq Require Import Strings.String Strings.Byte.
-From Coq Require Import List Arith NArith Bool.
-From PV Require Import Base.Bytes Base.Outcome Compkey.Model Driver.Tok.
+From Coq Require Import List Arith NArith ZArith Bool.
+From PV Require Import Base.Bytes Base.Outcome Base.KV Compkey.Model Aol.Model Bank.Model Chain.Model Driver.Tok.
 Import ListNotations.
+
+Record pending := {
+  p_fee : coins; p_signers : list bytes; p_msgs : list msg (* reversed *);
+  p_exec : option (bytes * list base_msg) (* an open MsgExec: grantee string, inner messages reversed *) }.
 
 Record dstate := {
   d_unbech : list (bytes * bytes);   (* bech32 string -> address bytes (strings absent here do not decode) *)
   d_bech : list (bytes * bytes);     (* address bytes -> canonical bech32 string *)
+  d_chain : chain;
+  d_now : Z;
+  d_fee_collector : bytes;
+  d_blocked : list bytes;
+  d_tx : option pending;
 }.
 
-Definition dinit : dstate := {| d_unbech := []; d_bech := [] |}.
+Definition empty_chain : chain :=
+  {| c_aol := []; c_bank := {| balances := []; supply := [] |}; c_grants := [] |}.
+
+Definition dinit : dstate :=
+  {| d_unbech := []; d_bech := []; d_chain := empty_chain; d_now := 0%Z; d_fee_collector := []; d_blocked := [];
+     d_tx := None |}.
+
+Definition upd_tables (st : dstate) (u : list (bytes * bytes)) (bb : list (bytes * bytes)) : dstate :=
+  {| d_unbech := u; d_bech := bb; d_chain := d_chain st; d_now := d_now st; d_fee_collector := d_fee_collector st;
+     d_blocked := d_blocked st; d_tx := d_tx st |}.
+Definition upd_chain (st : dstate) (c : chain) : dstate :=
+  {| d_unbech := d_unbech st; d_bech := d_bech st; d_chain := c; d_now := d_now st; d_fee_collector := d_fee_collector st;
+     d_blocked := d_blocked st; d_tx := d_tx st |}.
+Definition upd_tx (st : dstate) (t : option pending) : dstate :=
+  {| d_unbech := d_unbech st; d_bech := d_bech st; d_chain := d_chain st; d_now := d_now st; d_fee_collector := d_fee_collector st;
+     d_blocked := d_blocked st; d_tx := t |}.
+Definition upd_env (st : dstate) (now : Z) (fc : bytes) (bl : list bytes) : dstate :=
+  {| d_unbech := d_unbech st; d_bech := d_bech st; d_chain := d_chain st; d_now := now; d_fee_collector := fc;
+     d_blocked := bl; d_tx := d_tx st |}.
 
 Definition unbech_of (st : dstate) (s : bytes) : option bytes := lookup s (d_unbech st).
 Definition bech_of (st : dstate) (a : bytes) : bytes :=
@@ -131,6 +158,213 @@ Definition ck_cmd (st : dstate) (ts : list tok) : list bytes :=
   | [] => bad
   end.
 
+
+(** ** chain commands *)
+Definition env_of (st : dstate) : env :=
+  {| e_unbech := unbech_of st; e_now := d_now st; e_fee_collector := d_fee_collector st; e_blocked := d_blocked st |}.
+
+Definition coin_of_tok (t : tok) : option coin :=
+  match split_on ":"%byte t with
+  | [d; a] => match of_hex d, parse_dec a with Some d', Some a' => Some (d', a') | _, _ => None end
+  | _ => None
+  end.
+Definition coins_of_tok (t : tok) : option coins :=
+  if tok_is t "-" then Some [] else map_opt coin_of_tok (split_on ","%byte t).
+Definition addrs_of_tok (t : tok) : option (list bytes) :=
+  if tok_is t "-" then Some [] else map_opt of_hex (split_on ","%byte t).
+Definition z_of_tok (t : tok) : option Z :=
+  match parse_dec t with Some n => Some (Z.of_N n) | None => None end.
+Definition optz_of_tok (t : tok) : option (option Z) :=
+  if tok_is t "-" then Some None else match z_of_tok t with Some z => Some (Some z) | None => None end.
+
+Definition base_msg_of_toks (ts : list tok) : option base_msg :=
+  match ts with
+  | kind :: args =>
+      match map_opt bytes_of_tok args with
+      | None => None
+      | Some a =>
+          if tok_is kind "aol.CreateTopic" then
+            match a with [t; d; o] => Some (BAol (ACreateTopic t d o)) | _ => None end
+          else if tok_is kind "aol.AddWriter" then
+            match a with [t; m; d; w; o] => Some (BAol (AAddWriter t m d w o)) | _ => None end
+          else if tok_is kind "aol.DeleteWriter" then
+            match a with [t; w; o] => Some (BAol (ADeleteWriter t w o)) | _ => None end
+          else if tok_is kind "aol.AddRecord" then
+            match a with [t; k; v; w; o; f] => Some (BAol (AAddRecord t k v w o f)) | _ => None end
+          else if tok_is kind "authz.Revoke" then
+            match a with [g; r; u] => Some (BRevoke g r u) | _ => None end
+          else None
+      end
+  | [] => None
+  end.
+
+(** messages whose arguments are not all byte strings *)
+Definition base_msg_of_toks2 (ts : list tok) : option base_msg :=
+  match ts with
+  | [kind; f; t; cs] =>
+      if tok_is kind "bank.Send" then
+        match bytes_of_tok f, bytes_of_tok t, coins_of_tok cs with
+        | Some f', Some t', Some cs' => Some (BSend f' t' cs') | _, _, _ => None end
+      else base_msg_of_toks ts
+  | [kind; g; r; u; ex] =>
+      if tok_is kind "authz.Grant" then
+        match bytes_of_tok g, bytes_of_tok r, bytes_of_tok u, optz_of_tok ex with
+        | Some g', Some r', Some u', Some ex' => Some (BGrant g' r' u' ex') | _, _, _, _ => None end
+      else base_msg_of_toks ts
+  | _ => base_msg_of_toks ts
+  end.
+
+Definition print_n (n : N) : bytes := print_dec n.
+Definition print_z (z : Z) : bytes :=
+  match z with Zneg p => b "-" ++ print_dec (Npos p) | _ => print_dec (Z.to_N z) end.
+
+Definition result_line (r : tx_result) : bytes :=
+  match r with
+  | ROk acks => join_toks (b "R" :: b "ok" :: map print_n acks)
+  | RVb cs code => join_toks [b "R"; b "vb"; cs; print_n code]
+  | RVbPanic => b "R panic"
+  | RAnte => b "R ante"
+  | RMsg i cs code => join_toks [b "R"; b "msg"; print_n (N.of_nat i); cs; print_n code]
+  | RMsgPanic => b "R panic"
+  end.
+
+Definition aol_val_toks (v : aol_val) : list tok :=
+  match v with
+  | VOwner n => [b "O"; print_n n]
+  | VTopic d nr nw => [b "T"; tok_of_bytes d; print_n nr; print_n nw]
+  | VWriter m d t => [b "W"; tok_of_bytes m; tok_of_bytes d; print_z t]
+  | VRecord k v t w => [b "R"; tok_of_bytes k; tok_of_bytes v; print_z t; tok_of_bytes w]
+  end.
+
+Definition q_line (r : outcome aol_val) : bytes :=
+  match r with
+  | Ok v => join_toks (b "Q" :: b "ok" :: aol_val_toks v)
+  | Err _ code => join_toks [b "Q"; b "err"; print_n code]
+  | Panic => b "Q panic"
+  end.
+
+Definition dump_entry (e : bytes * aol_val) : bytes :=
+  to_hex (fst e) ++ b "=" ++ join_with ":"%byte (aol_val_toks (snd e)).
+
+Definition q_cmd (st : dstate) (ts : list tok) : list bytes :=
+  let e := env_of st in
+  match ts with
+  | kind :: args =>
+      match map_opt bytes_of_tok (firstn 2 args), skipn 2 args with
+      | Some [o; t], rest =>
+          if tok_is kind "aol.Record" then
+            match rest with
+            | [n] => match parse_dec n with
+                     | Some off => [q_line (q_record (e_unbech e) true (c_aol (d_chain st)) o t off)]
+                     | None => bad end
+            | _ => bad end
+          else if tok_is kind "aol.Topic" then
+            match rest with [] => [q_line (q_topic (e_unbech e) true (c_aol (d_chain st)) o t)] | _ => bad end
+          else if tok_is kind "aol.Writer" then
+            match rest with
+            | [w] => match bytes_of_tok w with
+                     | Some w' => [q_line (q_writer (e_unbech e) true (c_aol (d_chain st)) o t w')]
+                     | None => bad end
+            | _ => bad end
+          else bad
+      | _, _ => bad
+      end
+  | [] => bad
+  end.
+
+Definition chain_cmd (st : dstate) (cmd : tok) (args : list tok) : option (dstate * list bytes) :=
+  if tok_is cmd "ENV" then
+    match args with
+    | [k; v] => match bytes_of_tok v with
+                | Some v' =>
+                    if tok_is k "fee_collector" then Some (upd_env st (d_now st) v' (d_blocked st), [])
+                    else if tok_is k "blocked" then Some (upd_env st (d_now st) (d_fee_collector st) (v' :: d_blocked st), [])
+                    else Some (st, bad)
+                | None => Some (st, bad) end
+    | _ => Some (st, bad)
+    end
+  else if tok_is cmd "BAL" then
+    match args with
+    | [a; d; n] =>
+        match bytes_of_tok a, bytes_of_tok d, parse_dec n with
+        | Some a', Some d', Some n' =>
+            let c := d_chain st in
+            Some (upd_chain st (with_bank c (set_balance (c_bank c) a' d' n')), [])
+        | _, _, _ => Some (st, bad)
+        end
+    | _ => Some (st, bad)
+    end
+  else if tok_is cmd "BLOCK" then
+    match args with
+    | [t] => match z_of_tok t with
+             | Some z => let st1 := upd_env st z (d_fee_collector st) (d_blocked st) in
+                         Some (upd_chain st1 (begin_block (env_of st1) (d_chain st1)), [])
+             | None => Some (st, bad) end
+    | _ => Some (st, bad)
+    end
+  else if tok_is cmd "TX" then
+    match args with
+    | [fee; sg] =>
+        match coins_of_tok fee, addrs_of_tok sg with
+        | Some f, Some s => Some (upd_tx st (Some {| p_fee := f; p_signers := s; p_msgs := []; p_exec := None |}), [])
+        | _, _ => Some (st, bad)
+        end
+    | _ => Some (st, bad)
+    end
+  else if tok_is cmd "M" then
+    match d_tx st, base_msg_of_toks2 args with
+    | Some p, Some m =>
+        match p_exec p with
+        | Some (g, inner) =>
+            Some (upd_tx st (Some {| p_fee := p_fee p; p_signers := p_signers p; p_msgs := p_msgs p;
+                                     p_exec := Some (g, m :: inner) |}), [])
+        | None =>
+            Some (upd_tx st (Some {| p_fee := p_fee p; p_signers := p_signers p; p_msgs := MBase m :: p_msgs p;
+                                     p_exec := None |}), [])
+        end
+    | _, _ => Some (st, bad)
+    end
+  else if tok_is cmd "X" then
+    match d_tx st, args with
+    | Some p, [g] =>
+        match bytes_of_tok g with
+        | Some g' => Some (upd_tx st (Some {| p_fee := p_fee p; p_signers := p_signers p; p_msgs := p_msgs p;
+                                              p_exec := Some (g', []) |}), [])
+        | None => Some (st, bad) end
+    | _, _ => Some (st, bad)
+    end
+  else if tok_is cmd "XEND" then
+    match d_tx st with
+    | Some p =>
+        match p_exec p with
+        | Some (g, inner) =>
+            Some (upd_tx st (Some {| p_fee := p_fee p; p_signers := p_signers p;
+                                     p_msgs := MExec g (rev inner) :: p_msgs p; p_exec := None |}), [])
+        | None => Some (st, bad)
+        end
+    | None => Some (st, bad)
+    end
+  else if tok_is cmd "ENDTX" then
+    match d_tx st with
+    | Some p =>
+        let t := {| tx_msgs := rev (p_msgs p); tx_signed_by := p_signers p; tx_fee := p_fee p |} in
+        let '(c', r) := deliver_tx (env_of st) (d_chain st) t in
+        Some (upd_tx (upd_chain st c') None, [result_line r])
+    | None => Some (st, bad)
+    end
+  else if tok_is cmd "ENDBLOCK" then
+    Some (upd_chain st (end_block (env_of st) (d_chain st)), [])
+  else if tok_is cmd "Q" then Some (st, q_cmd st args)
+  else if tok_is cmd "DUMP" then
+    match args with
+    | [which] =>
+        if tok_is which "aol" then
+          Some (st, [join_toks [b "D"; b "aol"; join_with ";"%byte (map dump_entry (c_aol (d_chain st)))]])
+        else Some (st, bad)
+    | _ => Some (st, bad)
+    end
+  else None.
+
 (** ** dispatcher *)
 Definition step_line (st : dstate) (ts : list tok) : dstate * list bytes :=
   match ts with
@@ -141,7 +375,7 @@ Definition step_line (st : dstate) (ts : list tok) : dstate * list bytes :=
         match args with
         | [s; a] => match bytes_of_tok s, bytes_of_tok a with
                     | Some s', Some a' =>
-                        ({| d_unbech := (s', a') :: d_unbech st; d_bech := d_bech st |}, [])
+                        (upd_tables st ((s', a') :: d_unbech st) (d_bech st), [])
                     | _, _ => (st, bad)
                     end
         | _ => (st, bad)
@@ -150,13 +384,17 @@ Definition step_line (st : dstate) (ts : list tok) : dstate * list bytes :=
         match args with
         | [a; s] => match bytes_of_tok a, bytes_of_tok s with
                     | Some a', Some s' =>
-                        ({| d_unbech := d_unbech st; d_bech := (a', s') :: d_bech st |}, [])
+                        (upd_tables st (d_unbech st) ((a', s') :: d_bech st), [])
                     | _, _ => (st, bad)
                     end
         | _ => (st, bad)
         end
+      else if tok_is cmd "RESET" then (dinit, [])
       else if tok_is cmd "CK" then (st, ck_cmd st args)
-      else (st, bad)
+      else match chain_cmd st cmd args with
+           | Some r => r
+           | None => (st, bad)
+           end
   end.
 
 (** run a whole file (used for in-Coq evaluation of small cases) *)
